@@ -59,7 +59,11 @@ def dump_with_h(o):
     from propka.lib import make_tidy_atom_label
     conf = o.mol.conformations[o.mol.conformation_names[0]]
     lines = []
+    prev_chain = None
     for i, a in enumerate(conf.atoms):
+        if prev_chain is not None and a.chain_id != prev_chain:
+            lines.append("TER   \n")      # atoms are sorted by chain: keep the chains apart as the input did
+        prev_chain = a.chain_id
         lab = make_tidy_atom_label(a.name, a.element)
         l = "%-6s%5d %4s %3s%2s%4d%1s   %8.3f%8.3f%8.3f%6s%6s\n" % (a.type.upper() if a.type != 'atom' else 'ATOM', i + 1, lab, a.res_name, a.chain_id if a.chain_id != '_' else ' ',
                                                                    a.res_num, a.icode or ' ', a.x, a.y, a.z, "1.00", "0.00")
